@@ -23,7 +23,8 @@ META = {
              "schedule, 1-3 variant runs (random virtual delays at every yield point, another worker count "
              "for the same stripe layout, pre-filled/zeroed shared memory, stalled tasks), sometimes another "
              "stripe layout, and sometimes one run with a worker failure (exception at a drawn yield point or "
-             "source line, or process death).  A run (= one evaluation) is non-trivial when the parent and at least two worker tasks were interleaved; it is "
+             "source line, or process death) or with a failure of the parent's own set-up (a shared-memory segment "
+             "cannot be created, the pool's workers cannot be started).  A run (= one evaluation) is non-trivial when the parent and at least two worker tasks were interleaved; it is "
              "distinct when the hash of its (task, yield-ordinal) context-switch sequence together with its "
              "configuration has not been seen before in this batch."),
     "assumptions": [
